@@ -362,6 +362,47 @@ pub fn c03_concurrent(run: &Run, thorough: bool) {
   run.set("concurrent_part", json!({"harnesses": items.len(), "schedules": execs.load(Ordering::Relaxed), "preemption_bound": if thorough { 4 } else { 3 }, "menu": menu.iter().map(|p| progs_str(&[p.clone()])).collect::<Vec<_>>(), "note": "threads allocate from fresh space at odd cursor residues (CAS retry paths) and from recycled segments; every returned handle is checked for the requested capacity and alignment"}));
 }
 
+fn prop_c04(class: &str) -> Option<&'static str> {
+  match class {
+    "out-of-bounds" | "wild-access" | "panic" => Some("C04"),
+    _ => None,
+  }
+}
+
+/// C04 under concurrency: requests racing for the last bytes of fresh space (CAS retry paths of the three
+/// bump fast paths) are answered within the capacity or refused; nothing is written outside the arena.
+pub fn c04_concurrent(run: &Run, thorough: bool) {
+  use TOp::*;
+  let menu: Vec<Vec<TOp>> = vec![vec![B(16)], vec![B(24)], vec![U64], vec![AB(8)], vec![T16], vec![BO(16)], vec![B(8), B(8)], vec![B(16), DropOwn]];
+  let mut items = vec![];
+  for fl in [Fl::None, Fl::Optimistic] {
+    // (fresh bytes left, cursor residue)
+    for (leave, odd) in [(16u32, 0u8), (24, 0), (16, 3), (24, 5), (40, 1)] {
+      for i in 0..menu.len() {
+        for j in i..menu.len() {
+          items.push((Harness { fl, unify: true, min_seg: 8, cap: 256, shape: 0, progs: vec![menu[i].clone(), menu[j].clone()], own_arenas: false, leave, odd }, if thorough { 4 } else { 3 }));
+          if thorough && leave == 24 {
+            for k in j..menu.len().min(4) {
+              items.push((Harness { fl, unify: true, min_seg: 8, cap: 256, shape: 0, progs: vec![menu[i].clone(), menu[j].clone(), menu[k].clone()], own_arenas: false, leave, odd }, 2));
+            }
+          }
+        }
+      }
+    }
+  }
+  let execs = AtomicU64::new(0);
+  let events = AtomicU64::new(0);
+  par_for_each(&items, |_, (h, bound)| {
+    let xc = ExploreCfg { bound: *bound, hb: false, drain: false, prop_of: prop_c04, max_execs: 5_000_000, cache: false };
+    let st = explore(run, h, &xc, "C04");
+    execs.fetch_add(st.execs, Ordering::Relaxed);
+    events.fetch_add(st.events, Ordering::Relaxed);
+  });
+  run.eval(execs.load(Ordering::Relaxed));
+  run.trans(events.load(Ordering::Relaxed));
+  run.set("concurrent_part", json!({"harnesses": items.len(), "schedules": execs.load(Ordering::Relaxed), "preemption_bound": if thorough { 4 } else { 3 }, "menu": menu.iter().map(|p| progs_str(&[p.clone()])).collect::<Vec<_>>(), "note": "two (thorough: also three) threads race for the last 16-40 bytes of fresh space at several cursor residues; every returned handle must lie below the capacity and every zeroing write inside the arena"}));
+}
+
 fn prop_c08(class: &str) -> Option<&'static str> {
   match class {
     "not-zeroed" => Some("C08"),
